@@ -80,9 +80,19 @@ fn main() {
             let mut k = 0usize;
             for fam in [mqv::refm::Fam::V3, mqv::refm::Fam::V5] {
                 let tag = if fam == mqv::refm::Fam::V3 { 0u8 } else { 1u8 };
+                let mut sr = rng::Rng::new(seed ^ 0xc05);
                 mon::bytes::accepted_workload(&mut r, fam, n / 2, &mut |b, _| {
                     if b.len() <= 1000 {
                         let mut v = vec![tag];
+                        if prop == "C05" {
+                            // [family | mode<<1] [k] [k schedule bytes] [stream]
+                            v[0] |= (sr.below(2) as u8) << 1;
+                            let k = sr.range(0, 12);
+                            v.push(k as u8);
+                            for _ in 0..k {
+                                v.push(if sr.chance(1, 3) { 0x80 } else { sr.below(6) as u8 });
+                            }
+                        }
                         v.extend_from_slice(b);
                         let _ = std::fs::write(format!("{}/seed-{:05}", dir, k), v);
                         k += 1;
